@@ -148,6 +148,21 @@ def parseHOp (S : Schema) : Sexp → Option (List Op)
       pure ((← items.mapM (parseCtorItem S o)).flatten)
   | x => do pure [← parseOp x]
 
+/-- the constructor context of every operation `parseHOp` yields for this history item (same length, same order):
+a `(default f)` entry of a single-valued field stands for no operation, but its field still counts as "to come"
+for the entries before it -/
+def halvesOfHOp (S : Schema) : Sexp → List (Option Half)
+  | .list (.atom "ctor" :: o :: its) =>
+    match o.asNat? with
+    | some o =>
+      let fieldOf : Sexp → Nat := fun x => match x with | .list (_ :: f :: _) => (f.asNat?).getD 0 | _ => 0
+      let hs := halvesOfCtor o (its.map fieldOf)
+      (its.zip hs).flatMap fun (x, h) => match parseCtorItem S o x with
+        | some ops => ops.map fun _ => some h
+        | none => []
+    | none => []
+  | _ => [none]
+
 /-- the instances created by a constructor call in the history, and whether nothing refers to them earlier -/
 def ctorsOk (raw : List Sexp) (S : Schema) : Bool :=
   (raw.foldl (fun (acc : List Nat × Bool) x =>
@@ -179,7 +194,12 @@ def run (s : Sexp) : String :=
         let cl := closure (schemaRules S W) (fuelFor S W) (asserted ops)
         let spec := if cl.2 then showRels cl.1 ++ "|" ++ showFields S W [] (fun f o => targetsOf cl.1 f o) cl.1
                     else "spec-diverged"
-        s!"model={showRels σ.g ++ "|" ++ showFields S W [] (fun f o => σ.st f o) σ.g}\tspec={spec}\ttrig="
+        let m := showRels σ.g ++ "|" ++ showFields S W [] (fun f o => σ.st f o) σ.g
+        -- F-C16-10: a constructor call of an eq-dataclass instance whose inference compares the half-built instance
+        -- by value raises AttributeError (open in /repo while `halfBuiltOpen`)
+        let raised := (runModelH true S W (parseEqCls items) ((raw.flatMap (halvesOfHOp S)).zip ops)).2
+        if raised && halfBuiltOpen then s!"model=exc:AttributeError\tspec={spec}\ttrig=F-C16-10\tmodel_fixed={m}"
+        else s!"model={m}\tspec={spec}\ttrig=" ++ (if raised then "\tbefore_half_built_fix=exc:AttributeError" else "")
       | none => "error=bad-case"
     | _, _ => "error=bad-case"
   | .list (.atom "w" :: items) =>
